@@ -65,6 +65,8 @@ theorem ginv_trial_pos (sim : Sim) (he : sim.ens = .grand) (t : Tree) (v : Bool)
     have := congrArg Ctx.savedFixed hcore; simp only [ctxCore] at this; rw [this, h.invg.noSaved]
   have f_de : s1.ctx.delta = 0 := by
     have := congrArg Ctx.delta hcore; simp only [ctxCore] at this; rw [this, h.delta0]
+  have f_sz : s1.ctx.addedSizes = [] := by
+    have := congrArg Ctx.addedSizes hcore; simp only [ctxCore] at this; rw [this, h.invg.noSizes]
   have f_tm : s1.ctx.template = s.ctx.template := by have := congrArg Ctx.template hcore; simpa [ctxCore] using this
   have f_nx : s1.ctx.nExch = s.ctx.nExch := by have := congrArg Ctx.nExch hcore; simpa [ctxCore] using this
   have hlen : s1.atoms.rows.length = s.atoms.rows.length := by
@@ -82,7 +84,7 @@ theorem ginv_trial_pos (sim : Sim) (he : sim.ens = .grand) (t : Tree) (v : Bool)
   | false =>
     simp only [Bool.false_eq_true, if_false]
     have ha := hfail rfl
-    exact ⟨⟨⟨by rw [f_lp, ha]; exact h.invg.lastPos, f_ad, f_dl, f_da, f_sv, hfx1⟩, f_de, halign1,
+    exact ⟨⟨⟨by rw [f_lp, ha]; exact h.invg.lastPos, f_ad, f_dl, f_da, f_sv, hfx1, f_sz⟩, f_de, halign1,
             by rw [f_tm]; exact h.templ⟩, f_nx, hlen, fun _ => ha⟩
   | true =>
     cases v with
@@ -91,7 +93,7 @@ theorem ginv_trial_pos (sim : Sim) (he : sim.ens = .grand) (t : Tree) (v : Bool)
       have hat : (revertState sim s1).atoms = s.atoms := (hrej (by first | rfl | trivial)).2
       have hheapR : (revertState sim s1).heap = s1.heap := revertState_shape sim s1
       refine ⟨⟨⟨?_, by simp [revertState, he], by simp [revertState, he], by simp [revertState, he],
-                by simp [revertState, he], by rw [hat]; exact h.invg.fixedOK⟩,
+                by simp [revertState, he], by rw [hat]; exact h.invg.fixedOK, by simp [revertState, he]⟩,
                by simp [revertState, he], ?_, by simp [revertState, he, f_tm]; exact h.templ⟩,
               by simp [revertState, he, f_nx], by rw [hat], fun _ => hat⟩
       · rw [hat]
@@ -105,10 +107,11 @@ theorem ginv_trial_pos (sim : Sim) (he : sim.ens = .grand) (t : Tree) (v : Bool)
     | true =>
       simp only [if_true]
       have hsaveheap : (saveState sim s1).heap = s1.heap := by
-        simp [saveState, he, ctxSave, f_ad, f_dl, notifyRefs_nil]
+        simp [saveState, he, ctxSave, f_ad, f_dl, f_sz, notifyParts_nil, notifyRefs_nil]
       have hsa : (saveState sim s1).atoms = s1.atoms := by simp [saveState, he, ctxSave]
       refine ⟨⟨⟨by simp [saveState, he, ctxSave], by simp [saveState, he, ctxSave], by simp [saveState, he, ctxSave],
-                by simp [saveState, he, ctxSave], by simp [saveState, he, ctxSave], by rw [hsa]; exact hfx1⟩,
+                by simp [saveState, he, ctxSave], by simp [saveState, he, ctxSave], by rw [hsa]; exact hfx1,
+                by simp [saveState, he, ctxSave]⟩,
                by simp [saveState, he, ctxSave], ?_, by simp [saveState, he, ctxSave, f_tm]; exact h.templ⟩,
               by simp [saveState, he, ctxSave, f_nx, f_de], by rw [hsa]; exact hlen, fun hx => absurd rfl hx⟩
       intro r' hr' hlt hlb
@@ -165,7 +168,7 @@ theorem gstep_spec (sim : Sim) (he : sim.ens = .grand) (t : GTrial) (s : State) 
     GInv sim (gstep sim t s).2 ∧ (gstep sim t s).2.ctx.nExch = s.ctx.nExch + counterStep s (gstep sim t s).2 ∧
     ((gstep sim t s).1 ≠ .accepted → (gstep sim t s).2.atoms = s.atoms) := by
   have h' : GInv sim ({ s with inp := t.inp } : State) :=
-    ⟨⟨h.invg.1, h.invg.2, h.invg.3, h.invg.4, h.invg.5, h.invg.6⟩, h.delta0, h.aligned, h.templ⟩
+    ⟨⟨h.invg.1, h.invg.2, h.invg.3, h.invg.4, h.invg.5, h.invg.6, h.invg.7⟩, h.delta0, h.aligned, h.templ⟩
   unfold gstep GTrial.tree
   cases hk : t.kind with
   | pos tr =>
